@@ -497,7 +497,8 @@ class Concatenator(Group):  # pylint: disable=too-many-public-methods
             del parent_attr[f"Property:{name}"]
 
         elif isinstance(entity, ConcatenatedObject):
-            # First remove the children
+            # First remove the children (the lazily loaded ones included)
+            entity._fetch_concatenated_children()  # pylint: disable=protected-access
             entity.remove_children(entity.children.copy())
             object_ids = self.concatenated_object_ids
 
